@@ -136,6 +136,9 @@ def oracle_c01(builds):
 
 # ------------------------------------------------------------------ oracle C02: at most once, reasons justified by shadow epochs
 
+DEFAULT_RULE = dict(sig=0, obs=1, req=[], single=[], follow=[], disc=[], br=None)
+
+
 class Shadow:
     """The observer's own record of epochs, kept from the implementation's observable trace only."""
     def __init__(self):
@@ -145,8 +148,9 @@ class Shadow:
         if keep_db:
             # a new engine over the same database sees what was persisted: the state at each key's last COMPLETION
             self.built = dict(self.ran)            # builtAt as persisted
+            self.deps.update(self.dbdeps)          # and the dependency lists as stored (a cancelled build may have left partial lists in memory)
         else:
-            self.built, self.ran, self.changed, self.value, self.sig, self.deps, self.orderonly = {}, {}, {}, {}, {}, {}, {}
+            self.built, self.ran, self.changed, self.value, self.sig, self.deps, self.orderonly, self.dbdeps = {}, {}, {}, {}, {}, {}, {}, {}
             self.epoch = 0
         self.flag = set()
         if not keep_db or not hasattr(self, "uncertain"):
@@ -169,7 +173,7 @@ class Shadow:
                 if k in needed:
                     errs.append(("reason-twice", "rule %d got two run reasons in one build" % k))
                 needed[k] = (reason, inp)
-                r = rules.get(k, {})
+                r = rules.get(k, DEFAULT_RULE)        # the driver's default for an undefined key: an observing input rule
                 if k in self.uncertain or (inp is not None and inp in self.uncertain):
                     continue
                 if reason == 0 and k in self.built:
@@ -224,6 +228,10 @@ class Shadow:
                     self.built[k] = e
         for k, d in b["deps"].items():
             self.deps[k] = d
+        for l in b.get("db", []):
+            t = l.split(" ")
+            if t[0] == "dbrow":
+                self.dbdeps[int(t[1])] = [int(x.split(":")[0]) for x in t[7:] if x.split(":")[0].lstrip("-").isdigit()]
         self.last_created = created
         return errs
 
